@@ -41,7 +41,7 @@ def schemas(tier):
                 b.append(("M%s%d" % (pl.capitalize()[:3], k), fields, IDS[(k + rot) % 4], BUSES[k]))
             out.append(("payload:" + pl, b))
     # 2. dispatch among bindings: same id on prefix-related buses, same bus with different ids, long names
-    for pa, pb, pc in itertools.product(range(3), repeat=3) if tier != "quick" else [(0, 1, 2), (2, 2, 2), (4, 0, 6)]:
+    for pa, pb, pc in itertools.product(range(5), repeat=3) if tier != "quick" else [(0, 1, 2), (2, 2, 2), (4, 0, 6), (1, 0, 0), (3, 4, 1)]:
         out.append(("dispatch", [("Msg0", PAYLOADS[pa][1], 1, "ab"), ("Msg1", PAYLOADS[pb][1], 1, "abc"), ("LongMessageName2", PAYLOADS[pc][1], 2, "ab")]))
     out.append(("dispatch", [("A", PAYLOADS[3][1], 2047, "x"), ("B", PAYLOADS[6][1], 2047, "xy"), ("C", PAYLOADS[1][1], 0, "x")]))
     out.append(("single", [("Only", PAYLOADS[6][1], 100, "can1")]))
